@@ -176,6 +176,14 @@ def _check_fields(ctx, op, verifier, path, rec, cname):
     if cname == 'HoleDealing' and 'statuses' in rec:
         if rec['statuses'][0] != 'call' or rec['statuses'][1] != 'tuple':
             problems.append('statuses are not recorded as a tuple')
+        # the recorded facings are the ones taken from the pending queue, one per card dealt
+        pops = [unversion(e.term) for e in writes if e.op == 'call:popleft' and T.root_self_attr(unversion(e.term)) == 'hole_dealing_statuses']
+        loops = [e for e in path.events if e.kind == 'loop' and e.op == 'enter']
+        if loops and pops:
+            appended = [unversion(e.value) for e in path.events if e.kind == 'lwrite' and e.op == 'call:append']
+            got_local = [unversion(c.term) for c in path.calls() if c.term[0] == 'mcall' and c.term[2] == 'append' and c.term[1][0] in ('list', 'name')]
+            if not any(T.mentions(x, lambda y: isinstance(y, tuple) and len(y) > 2 and y[0] == 'mcall' and y[2] == 'popleft') for x in appended + got_local):
+                problems.append('the facings recorded are not the ones taken from the pending queue')
     if cname == 'StandingPatOrDiscarding' and 'cards' in rec:
         moved = [e for e in writes if T.root_self_attr(unversion(e.term)) == 'discarded_cards']
         for e in moved:
@@ -204,6 +212,15 @@ def _check_fields(ctx, op, verifier, path, rec, cname):
         b = rec.get('bets')
         if not (b is not None and b[0] == 'call' and b[1] == 'tuple'):
             problems.append('bets are not recorded as a tuple')
+        # what is recorded as collected: a copy of the bets, the uncalled part cut off, nothing from a lone survivor
+        fn = ctx.sfi(op).node
+        m = ctx.m
+        facts = {
+            'a copy of the bets': bool(m.assigns(fn, 'self.bets.copy()')),
+            'nothing from the last player standing': bool(m.full_assigns(fn, 'bets[player_index]', '0')) and bool(m.assigns(fn, 'self.statuses.index(True)')),
+            'an overbet is recorded up to the cutoff': bool(m.full_assigns(fn, 'bets[i]', 'bet_cutoff')),
+        }
+        problems += [f'BetCollection record: not found: {k}' for k, v in facts.items() if not v]
     return problems
 
 
